@@ -54,6 +54,7 @@ fn gen_x(g: &mut Gen) -> BigInt {
         1 => ten_pow(g.rng.below(35) as u32),                                       // 1e-34 .. 1
         2 => ten_pow(10) + BigInt::from(g.rng.below(3)) - 1,                         // EPS - 1, EPS, EPS + 1
         3 => { let n = g.rng.range(1, 34) as usize; digits(g, n) }                   // tiny .. < 1
+        15 => { let n = g.rng.range(22, 25) as usize; digits(g, n) }                 // 1e-13 .. 1e-10: where upper bounds are a few ulp wide
         4 | 5 | 6 | 7 | 8 | 9 => (&p * BigInt::from(12) / 10) * BigInt::from(g.rng.below(1_000_001)) / 1_000_000, // [0, 1.2] leader range
         10 => &p * BigInt::from(g.rng.range(1, 12)) / 10 + digits(g, 20),
         11 => digits(g, 35),                                                         // [1, 10)
@@ -137,7 +138,14 @@ pub fn run_case(case: &Case, out: &mut Out) {
         if dominated {
             match r.estimation {
                 ExpOrdering::GT => if !(c > hi) {
-                    out.viol(format!("gt-unsound x={sign}"), format!("exp_cmp({max_n}, x={x}, bound={bound}, cmp={cmp}) = GT but cmp <= e^x (enclosure lo={lo})"));
+                    // how far below e^x is `compare`, against the slack proved in Lean (gt_sound_partial):
+                    // (3·iterations + 3·bound) ulp on 0 <= x <= 1, bound >= 2. Inside it = the recorded
+                    // rounding window of the reference algorithm; beyond it = something else is wrong.
+                    let shortfall = &hi - &c;
+                    let slack = (BigInt::from(3 * r.iterations) + BigInt::from(3) * BigInt::from(bound)) * &s_over_p;
+                    let in_domain = !x.is_negative() && x <= ten_pow(34) && bound >= 2;
+                    let key = if in_domain && shortfall <= slack { format!("gt-unsound-within-rounding-slack x={sign}") } else { format!("gt-unsound x={sign}") };
+                    out.viol(key, format!("exp_cmp({max_n}, x={x}, bound={bound}, cmp={cmp}) = GT after {} iterations but cmp <= e^x (enclosure lo={lo})", r.iterations));
                 },
                 ExpOrdering::LT => if !(c < lo) {
                     out.viol(format!("lt-unsound x={sign}"), format!("exp_cmp({max_n}, x={x}, bound={bound}, cmp={cmp}) = LT but cmp >= e^x (enclosure hi={hi})"));
